@@ -101,22 +101,23 @@ def run(ctx) -> None:
     # ---- R05b
     vb = pi.methods.get("visit_BlockNode")
     ctx.analysed(vb)
+    bpar = vb.node.args.args[1].arg
     g = cfg_of(vb)
     body = [n for n in g.nodes if any(call_attr(c) == "_visit_children" for c in n.calls())]
     if len(body) != 1:
         raise AnchorError("visit_BlockNode: body invocation not found")
     b = body[0]
     for what, pred in (("Block tag := node.name", lambda n: any(call_attr(c) == "set_value" and "SystemTagName.BLOCK]" in norm(c.func)
-                                                             and c.args and norm(c.args[0]) == "node.name" for c in n.calls())),
+                                                             and c.args and norm(c.args[0]) == f"{bpar}.name" for c in n.calls())),
                        ("emit_on_block_start", lambda n: node_calls(n, "emit_on_block_start")),
                        ("emit_on_scope_start", lambda n: node_calls(n, "emit_on_scope_start"))):
         nodes = [n for n in g.nodes if pred(n)]
         inst = f"visit_BlockNode: {what} on the lock-acquired path before the body"
-        good = bool(nodes) and all(("node.lock_acquired", True) in facts_at(g, n) for n in nodes)
+        good = bool(nodes) and all((f"{bpar}.lock_acquired", True) in facts_at(g, n) for n in nodes)
         # every path that enters the acquire loop and reaches the body passes it
         # the branch taken right after the lock was obtained (`if node.lock_acquired:` inside the acquire loop) must pass the
         # announcement on every path to the body
-        got = [n for n in g.nodes if n.kind == "test" and norm(n.ast) == "node.lock_acquired"]
+        got = [n for n in g.nodes if n.kind == "test" and norm(n.ast) == f"{bpar}.lock_acquired"]
         if good and got:
             p = g.search([(got[0].id, "T")], lambda n: n.id == b.id, blocked=lambda n: any(n.id == x.id for x in nodes))
             good = p is None
@@ -140,7 +141,7 @@ def run(ctx) -> None:
     ok = bool(comp)
     for c in comp:
         p = g.search([b.id], lambda n, c=c: n.id == c.id, blocked_edge=lambda s, d, l: g.nodes[s].kind == "test"
-                     and norm(g.nodes[s].ast) == "not node.block_ended" and l == "F")
+                     and norm(g.nodes[s].ast) == f"not {bpar}.block_ended" and l == "F")
         if p is not None:
             ok = False
     if ok:
